@@ -34,8 +34,8 @@ PROPS = {
     },
     'C03': {
         'streams': [S('C03', 1500, 30000)],
-        'explanation': 'theorems (whole engine, Proofs/EngineNI.v): for any two errors that differ only in the CONTENT of unsafe strings (every unsafe position of the model, hidden errors included; same line shape), Redact() of the %v/%s and of the %+v rendering is the same; the needed refinement of "shape" (lines of 0/1/2+ bytes for strings the engine writes itself) is witnessed: a one-bit-per-line length side channel, not content. Correspondence on hostile strings: redactable %v/%+v, safe details, wire message, Sentry report of model vs implementation, local / knowing hops / unknowing hop; Go relation: no unsafe token in any PII-free output',
-        'not_yet_proved': ['non-interference of the safe details / wire payload / report assembled from the renderings (they are Redact() of renderings covered by the theorem, plus per-kind detail strings: decided by the correspondence); a syntactic input condition implying the sh_ok / glue hypotheses'],
+        'explanation': 'theorems (whole engine, Proofs/EngineNI.v): for any two errors that differ only in the CONTENT of unsafe strings (every unsafe position of the model, hidden errors included; same line shape), Redact() of the %v/%s and of the %+v rendering is the same; the needed refinement of "shape" (lines of 0/1/2+ bytes for strings the engine writes itself) is witnessed: a one-bit-per-line length side channel, not content; theorems (Proofs/DetailsNI.v): GetSafeDetails / GetAllSafeDetails, the whole Sentry report record and the reportable part (type names + reportable payload) of every node of the wire encoding are equal for two such errors (C03_safe_details, C03_report, C03_wire_reportable); the two positions where an encoder declares reportable what the formatter prints as an unsafe argument (HTTP status code, foreign errno text) are witnessed. Correspondence on hostile strings: redactable %v/%+v, safe details, wire message, Sentry report of model vs implementation, local / knowing hops / unknowing hop; Go relation: no unsafe token in any PII-free output',
+        'not_yet_proved': ['a syntactic input condition implying the sh_ok / glue hypotheses for ueq-related PAIRS (for single errors built by the API: C06_api_short / C06_api_verbose)'],
         'assumptions': [ASSUME_UNIVERSE],
     },
     'C04': {
@@ -46,8 +46,8 @@ PROPS = {
     },
     'C06': {
         'streams': [S('C06', 1500, 30000), S('C06R', 900, 20000)],
-        'explanation': 'theorems (whole engine, Proofs/EngineWf.v): the redactable %v/%s rendering of EVERY error (all kinds, any depth, arbitrary bytes everywhere) is well-formed and balanced on every line when the redactable strings stored in the visited nodes are; %+v likewise under the decidable entry-glue condition; C06_engine_refuted_*: the conditions fail for errors built by the public API from strings with a truncated marker prefix at a line end -- the recorded finding marker-assembled-from-truncated-utf8, confirmed on the code. Correspondence: redactable renderings byte-equal model vs implementation on hostile strings (local, decoded, opaque) and on regular strings with the plain renderings; Go relation: markers balanced / not nested / balanced per line; strip = plain; unsupported verbs refused',
-        'not_yet_proved': ['congruence (strip = plain) beyond ASCII arguments; a syntactic condition on the INPUT strings implying the glue / stored-string hypotheses of the engine theorems (the recorded finding shows truncated marker prefixes at line ends must be excluded)'],
+        'explanation': 'theorems (whole engine, Proofs/EngineWf.v): the redactable %v/%s rendering of EVERY error (all kinds, any depth, arbitrary bytes everywhere) is well-formed and balanced on every line when the redactable strings stored in the visited nodes are; %+v likewise under the decidable entry-glue condition; C06_engine_refuted_*: the conditions fail for errors built by the public API from strings with a truncated marker prefix at a line end -- the recorded finding marker-assembled-from-truncated-utf8, confirmed on the code; theorems (Proofs/ApiWf.v): from the INPUT of the public API -- for every constructor expression (all forms, transfers through arbitrary processes included) whose message strings have no truncated marker prefix before a newline / colon / E2 or at their end (decidable strs_ok; hints, details, links, keys, domains, tags, safe details unconstrained) both renderings are well-formed on every line (C06_api_short, C06_api_verbose), with no string condition when error arguments come last (C06_api_short_lastarg); the condition is witnessed necessary. Correspondence: redactable renderings byte-equal model vs implementation on hostile strings (local, decoded, opaque) and on regular strings with the plain renderings; Go relation: markers balanced / not nested / balanced per line; strip = plain; unsupported verbs refused',
+        'not_yet_proved': ['congruence (strip = plain) beyond ASCII arguments; error arguments printed with %+v inside message formats (outside in_fragment; no counter-example found by evaluation)'],
         'assumptions': [ASSUME_UNIVERSE],
     },
     'C07': {
